@@ -405,6 +405,40 @@ func (c *Ctx) ifsOn(cond ssa.Value) []*ssa.If {
 // regionForwards: inside the region one of the tracked error values is
 // sent on a channel or stored into a field/cell.
 func (c *Ctx) regionForwards(region map[*ssa.BasicBlock]bool, vals map[ssa.Value]bool) bool {
+	// every edge leaving the region carries the error (or a value derived
+	// from it) into a phi of the join block: the error travels on as a value
+	// and the phi is tracked as the same error
+	exits, carried := 0, 0
+	for b := range region {
+		for _, s := range b.Succs {
+			if region[s] {
+				continue
+			}
+			exits++
+			i, _ := predIndex(s, b)
+			for _, in := range s.Instrs {
+				phi, ok := in.(*ssa.Phi)
+				if !ok {
+					break
+				}
+				if i < 0 || i >= len(phi.Edges) || !isErrorType(phi.Type()) {
+					continue
+				}
+				e := phi.Edges[i]
+				made := false // a new error made on the non-nil branch (wrapping)
+				if d, ok := e.(ssa.Instruction); ok && region[d.Block()] && !isNilConst(e) {
+					made = true
+				}
+				if vals[e] || made {
+					carried++
+					break
+				}
+			}
+		}
+	}
+	if exits > 0 && exits == carried {
+		return true
+	}
 	for b := range region {
 		for _, in := range b.Instrs {
 			switch x := in.(type) {
@@ -459,10 +493,10 @@ func (c *Ctx) writerKind(p *errProducer) string {
 		break
 	}
 	w = c.resolve(w)
-	if isPtrToNamed(w.Type(), "bytes", "Buffer") {
+	if isPtrToNamed(w.Type(), "bytes", "Buffer") || isPtrToNamed(w.Type(), "strings", "Builder") {
 		return "buffer"
 	}
-	if fa, ok := w.(*ssa.FieldAddr); ok && isNamed(fieldOfAddr(fa).Var.Type(), "bytes", "Buffer") {
+	if fa, ok := w.(*ssa.FieldAddr); ok && (isNamed(fieldOfAddr(fa).Var.Type(), "bytes", "Buffer") || isNamed(fieldOfAddr(fa).Var.Type(), "strings", "Builder")) {
 		return "buffer"
 	}
 	switch x := w.(type) {
@@ -486,9 +520,9 @@ func (c *Ctx) errExceptionFor(v errVerdict) (string, bool) {
 	isWrite := calleeHas(v, "fmt.Fprint", "io.WriteString", ".Write", ".WriteString", ".WriteByte")
 	switch {
 	case isWrite && wk == "buffer":
-		return "write into an in-memory *bytes.Buffer cannot fail", true
-	case strings.HasPrefix(p.What, "(*bytes.Buffer)."):
-		return "write into an in-memory *bytes.Buffer cannot fail", true
+		return "write into an in-memory buffer (*bytes.Buffer / *strings.Builder) cannot fail", true
+	case strings.HasPrefix(p.What, "(*bytes.Buffer).") || strings.HasPrefix(p.What, "(*strings.Builder)."):
+		return "write into an in-memory buffer (*bytes.Buffer / *strings.Builder) cannot fail", true
 	case isWrite && (wk == "param:stderr" || wk == "global:os.Stderr") && v.Status == "dropped":
 		return "write to the diagnostic stream (stderr); its failure does not affect the report", true
 	case isWrite && strings.HasPrefix(wk, "field:meter.") && v.Status == "dropped":
